@@ -40,6 +40,7 @@ class Contract:
         self.note = g('note', '')
         self.extended = g('extended', False)
         self.total = g('total', False)          # no exception allowed at all
+        self.c03 = g('c03', False)              # also prove Truthful(result) (C03 construction site)
         self.slice_vars = g('slice_vars')       # mechanical statement slice (see slice_function)
 
 
@@ -242,6 +243,12 @@ def _explore_function(I, c, tgt, mode, prop, short):
             if c.ensures is not None:
                 ok = call_spec(I, c.ensures, dict(vals, result=res))
                 I.ex.prove(f'{prop}:{short}:ensures', truthy(ok), kind='post', exact=c.exact)
+            if c.c03:
+                from .vecmodel import is_vector
+                from contracts import specs as _specs
+                if is_vector(res):
+                    tv = I.call(I.lift(_specs.truthful), [res], {})
+                    I.ex.prove(f'C03:{short}:site:truthful', truthy(tv), kind='post', exact=c.exact)
             for exc, cond, *rest in c.raises:
                 iff = rest[0] if rest else True
                 if iff:
